@@ -34,6 +34,11 @@ func reproScenario(t *testing.T, name string, cfg cfgT, script []evT, wantSig st
 				o := w.observe()
 				t.Logf("%s: %-8s n=%-3d -> out=%v res=%q wait=%q closed=%v", name, e.K, e.N, o.Out, o.Res, o.Wait, o.Closed)
 			}
+			// while the connection is still there: is the library wedged (readLoop cannot hand over, nothing runs)?
+			if _, dump := sshGoroutines(); strings.Contains(stallSignature(dump), "readLoop-blocked-on-incoming") {
+				stalled = stallSignature(dump)
+				t.Logf("%s: wedged before the harness let go of the connection: %s", name, stalled)
+			}
 			w.cleanup() // both ends closed, Conn.Close called
 			if n, dump := sshGoroutines(); n > 0 {
 				stalled = stallSignature(dump)
